@@ -12,7 +12,7 @@ index is out of range — nothing is defaulted.  Core Lean only (linked into `pv
 Not modelled (parameters / outside the property): `Display` (`shortNameList`,
 `fileNameSuffixes`: regexp), `Color` (sha256), `Scale`/`Unit` (`measurement.Scale`: float), the
 `?n?` names invented for lines whose Function is nil (such lines are rejected by `CheckValid`;
-the model answers `err` for them), `TrimPath`/`SourcePath` options other than the empty default.
+the model answers `err` for them), (TrimPath/SourcePath are modelled: `trimPath`, Unix path syntax).
 -/
 namespace PV.Stacks
 open PV
@@ -113,8 +113,14 @@ def resolve (p : Profile) (idx : Nat) : Outcome (List (Int × List Frame)) :=
 
 /-! ### names -/
 
-def dec (i : Int) : Str := Str.ofString (toString i)
-def decNat (n : Nat) : Str := Str.ofString (toString n)
+/-- decimal digits (fuel = n+1 suffices; written structurally so that it reduces in the kernel). -/
+def natDigitsAux : Nat → Nat → List UInt8 → List UInt8
+  | 0, _, acc => acc
+  | fuel+1, n, acc =>
+    let acc' := UInt8.ofNat (48 + n % 10) :: acc
+    if n / 10 = 0 then acc' else natDigitsAux fuel (n / 10) acc'
+def decNat (n : Nat) : Str := natDigitsAux (n+1) n []
+def dec (i : Int) : Str := if i < 0 then 45 :: decNat i.natAbs else decNat i.natAbs
 def colon : Str := [58]
 def hash : Str := [35]
 
@@ -124,8 +130,9 @@ def addLineInfo (str : Str) (line column : Int) : Str :=
   else if line ≠ 0 then str ++ colon ++ dec line
   else str
 
-def cwdDot : Str := Str.ofString "/proc/self/cwd/./"
-def cwd : Str := Str.ofString "/proc/self/cwd/"
+/-- "/proc/self/cwd/" and "/proc/self/cwd/./" (byte literals: they reduce in the kernel) -/
+def cwd : Str := [47, 112, 114, 111, 99, 47, 115, 101, 108, 102, 47, 99, 119, 100, 47]
+def cwdDot : Str := cwd ++ [46, 47]
 
 /-- `trimPath(path, "", "")`: with no trim path and no search path configured only the two
 built-in prefixes are removed. -/
@@ -134,12 +141,67 @@ def trimPathDefault (path : Str) : Str :=
   else if cwd.isPrefixOf path then path.drop cwd.length
   else path
 
-def Key.fileName (k : Key) : Str := trimPathDefault k.file
+/-- the report options `Stacks()` reads: `-trim_path` and `-source_path`. -/
+structure Opts where
+  trimPath : Str
+  sourcePath : Str
+  deriving Repr, DecidableEq
+
+def Opts.default : Opts := ⟨[], []⟩
+
+/-- `filepath.SplitList`: split at ':'; the empty string is the empty list. -/
+def splitListAux : List UInt8 → List UInt8 → List Str
+  | [], cur => [cur.reverse]
+  | b :: r, cur => if b = 58 then cur.reverse :: splitListAux r [] else splitListAux r (b :: cur)
+def splitList (s : Str) : List Str := if s = [] then [] else splitListAux s []
+
+def dropTrailingSlashes (s : Str) : Str := (s.reverse.dropWhile (· = 47)).reverse
+def afterLastSlash (s : Str) : Str := (s.reverse.takeWhile (· ≠ 47)).reverse
+
+/-- `filepath.Base` (Unix): "" is ".", only slashes is "/", else the last element. -/
+def pathBase (s : Str) : Str :=
+  if s = [] then [46]
+  else
+    let t := dropTrailingSlashes s
+    if t = [] then [47] else afterLastSlash t
+
+/-- `strings.Index(s, sub)`: position of the first occurrence. -/
+def indexOf (sub : Str) : Str → Nat → Option Nat
+  | [], i => if sub = [] then some i else none
+  | b :: r, i => if sub.isPrefixOf (b :: r) then some i else indexOf sub r (i+1)
+
+def withSlash (t : Str) : Str := if t.getLast? = some 47 then t else t ++ [47]
+
+def firstPrefix (path : Str) : List Str → Option Str
+  | [] => none
+  | t :: r => if (withSlash t).isPrefixOf path then some (path.drop (withSlash t).length) else firstPrefix path r
+
+def firstBase (path : Str) : List Str → Option Str
+  | [] => none
+  | dir :: r =>
+    let want := [47] ++ pathBase dir ++ [47]
+    match indexOf want path 0 with
+    | some found => some (path.drop (found + want.length))
+    | none => firstBase path r
+
+/-- `trimPath(path, trimPath, searchPath)` (internal/report/source.go), Unix paths: without a trim
+path, the first search-path directory whose base name occurs as a component `/<base>/` cuts the
+path after that component; otherwise (or if none occurs) the first of the trim prefixes and the
+two built-in ones that is a prefix of the path is removed; otherwise the path is unchanged. -/
+def trimPath (o : Opts) (path : Str) : Str :=
+  match (if o.trimPath = [] then firstBase path (splitList o.sourcePath) else none) with
+  | some r => r
+  | none =>
+    match firstPrefix path (splitList o.trimPath ++ [cwdDot, cwd]) with
+    | some r => r
+    | none => path
+
+def Key.fileName (k : Key) (o : Opts) : Str := trimPath o k.file
 /-- `x.FullName`: the function name, or the (trimmed) file name when the name is empty (file
 granularity), with line information appended. -/
-def Key.fullName (k : Key) : Str :=
+def Key.fullName (k : Key) (o : Opts) : Str :=
   if k.name ≠ [] then addLineInfo k.name k.line k.column
-  else addLineInfo k.fileName k.line k.column
+  else addLineInfo (k.fileName o) k.line k.column
 
 /-! ### the stack set -/
 
@@ -177,13 +239,13 @@ def rootSource : Source :=
 def St.init : St := { sources := Slice.lit [rootSource], srcs := [], seenFunctions := [] }
 
 /-- the closure `getSrc` (for a line with a Function). -/
-def getSrc (st : St) (f : Frame) : St × Nat :=
+def getSrc (o : Opts) (st : St) (f : Frame) : St × Nat :=
   match st.srcs.lookup f.key with
   | some i => (st, i)
   | none =>
-    let full := f.key.fullName
+    let full := f.key.fullName o
     let x : Source :=
-      { fullName := full, fileName := f.key.fileName,
+      { fullName := full, fileName := f.key.fileName o,
         uniqueName := if st.seenFunctions.contains full then full ++ hash ++ decNat f.fnID else full,
         inlined := f.inlined, places := Slice.lit [], self := 0 }
     let sources := st.sources.push x
@@ -193,12 +255,12 @@ def getSrc (st : St) (f : Frame) : St × Nat :=
      sources.len - 1)
 
 /-- the two inner loops of one sample, after the reads: append `getSrc` of every frame. -/
-def pushFrames (st : St) (idxs : Slice Nat) (fs : List Frame) : St × Slice Nat :=
-  fs.foldl (fun (acc : St × Slice Nat) f => let r := getSrc acc.1 f; (r.1, acc.2.push r.2)) (st, idxs)
+def pushFrames (o : Opts) (st : St) (idxs : Slice Nat) (fs : List Frame) : St × Slice Nat :=
+  fs.foldl (fun (acc : St × Slice Nat) f => let r := getSrc o acc.1 f; (r.1, acc.2.push r.2)) (st, idxs)
 
 /-- body of `for _, sample := range rpt.prof.Sample`. -/
-def sampleStep (acc : St × Slice Stack) (x : Int × List Frame) : Outcome (St × Slice Stack) := do
-  let r := pushFrames acc.1 (Slice.lit [0]) x.2
+def sampleStep (o : Opts) (acc : St × Slice Stack) (x : Int × List Frame) : Outcome (St × Slice Stack) := do
+  let r := pushFrames o acc.1 (Slice.lit [0]) x.2
   let leaf ← r.2.get (r.2.len - 1)
   let sources ← r.1.sources.upd leaf (fun s => { s with self := s.self + x.1 })
   pure ({ r.1 with sources := sources }, acc.2.push { value := x.1, sources := r.2 })
@@ -207,8 +269,8 @@ def foldO {σ α : Type} (f : σ → α → Outcome σ) : σ → List α → Out
   | s, [] => .ok s
   | s, a :: r => do let s' ← f s a; foldO f s' r
 
-def makeInitialStacks (rs : List (Int × List Frame)) : Outcome (St × Slice Stack) :=
-  foldO sampleStep (St.init, Slice.lit []) rs
+def makeInitialStacks (o : Opts) (rs : List (Int × List Frame)) : Outcome (St × Slice Stack) :=
+  foldO (sampleStep o) (St.init, Slice.lit []) rs
 
 /-- inner loop of `fillPlaces` for stack number `a`: position `j`, the seen set, the sources. -/
 def fillStack (a : Nat) : List Nat → Nat → List Nat → Slice Source → Outcome (Slice Source)
@@ -239,14 +301,14 @@ def computeTotal (rs : List (Int × Bool)) : Int :=
   if diffTotal > 0 then diffTotal else total
 
 /-- the part of `Stacks()` after the reads. -/
-def build (total : Int) (rs : List (Int × List Frame)) : Outcome StackSet := do
-  let r ← makeInitialStacks rs
+def build (o : Opts) (total : Int) (rs : List (Int × List Frame)) : Outcome StackSet := do
+  let r ← makeInitialStacks o rs
   let sources ← fillPlaces r.2.elems 0 r.1.sources
   pure { total := total, stacks := r.2, sources := sources }
 
 /-- `report.New(prof, {SampleValue: v[idx]}).Stacks()` -/
-def stacks (p : Profile) (idx : Nat) : Outcome StackSet := do
+def stacks (o : Opts) (p : Profile) (idx : Nat) : Outcome StackSet := do
   let rs ← resolve p idx
-  build (computeTotal ((rs.zip p.samples).map fun x => (x.1.1, diffBase x.2))) rs
+  build o (computeTotal ((rs.zip p.samples).map fun x => (x.1.1, diffBase x.2))) rs
 
 end PV.Stacks
